@@ -33,6 +33,7 @@ type Harness struct {
 	endLn    int
 	Requires []string
 	Vacuity  bool
+	ReplaySrc string // harness without its requires lines (replay of a solver model)
 	Secondary bool // not the first ensures clause of a function contract: obligations of the body itself are left to the first
 	Summary  bool
 	Insts    []*ssa.Function
@@ -544,6 +545,17 @@ func (g *ghostGen) generate() (string, []*Harness) {
 					fmt.Fprintf(&fb, "\tverifspec.Begin()\n\t%s\tverifspec.End()\n", resultBind)
 				}
 				fmt.Fprintf(&fb, "\treturn %s\n}\n\n", dsg(it, strings.ReplaceAll(c.Expr, "NOCALL", "")))
+				{
+					// the same harness without its requires lines, for the replay of a solver model (the model
+					// satisfies the preconditions; universally quantified ones cannot be executed)
+					var rb strings.Builder
+					fmt.Fprintf(&rb, "func %s_replay%s(%s) bool {\n", h.GhostFn, tparamsDecl(tps), paramDecl)
+					if it.Kind == "func" && !strings.Contains(c.Expr, "NOCALL") {
+						fmt.Fprintf(&rb, "\tverifspec.Begin()\n\t%s\tverifspec.End()\n", resultBind)
+					}
+					fmt.Fprintf(&rb, "\treturn %s\n}\n\n", dsg(it, strings.ReplaceAll(c.Expr, "NOCALL", "")))
+					h.ReplaySrc = rb.String()
+				}
 				h.startLn = strings.Count(body.String(), "\n")
 				body.WriteString(fb.String())
 				h.endLn = strings.Count(body.String(), "\n")
